@@ -71,6 +71,10 @@ func (s *SchemaDesc) Sexp() hx.Sexp {
 // DocStats counts what a converted document contains (for the evidence distribution).
 type DocStats struct {
 	Fields, Spreads, Inlines, Directives, VarDirectives, Aliases, ArgErrs, Typenames, MaxDepth int
+	// DirErrs counts @skip/@include whose arguments cannot be coerced at run time (explicit null for a
+	// defaulted variable): the executor then reports the coercion error and leaves the selection out;
+	// the C01 model does not cover that path (input coercion is C05's), callers discard such cases.
+	DirErrs int
 }
 
 type astConv struct {
@@ -136,7 +140,10 @@ func (c *astConv) dirs(ds []*ast.Directive) hx.Sexp {
 		}
 		x := hx.N("other")
 		if def := c.b.Schema.Directives()[d.Name.Name]; def != nil && def.FieldCollectionFilter != nil {
-			if args, err := validator.CoerceArgumentValues(d, def.Arguments, d.Arguments, c.vars); err == nil {
+			args, err := validator.CoerceArgumentValues(d, def.Arguments, d.Arguments, c.vars)
+			if err != nil {
+				c.stats.DirErrs++
+			} else {
 				if v, ok := args["if"].(bool); ok {
 					switch d.Name.Name {
 					case "skip":
